@@ -123,6 +123,22 @@ def register(reg):
     reg.add(Contract(EVF, 'EngVal.newEngValInUnits', {'self': EV, 'theUnits': Int}, returns=EV, globals_=G_EV, raises=REFUSE,
                      ensures=['result.uom == theUnits', 'implies(theUnits == self.uom, result.value == self.value)'],
                      canaries=['result.value == self.value'], crosscheck=False))
+    # the operators between two engineering values: the right operand is converted to the LEFT operand's units (refused exactly when
+    # that conversion is refused); with identical units it is plain arithmetic on the two values; the units of the result are the left's
+    REFUSE2 = {k: v.replace('theUnits', 'OTHER_UOM').replace('self.uom', 'other.uom').replace('OTHER_UOM', 'self.uom') for k, v in REFUSE.items()}
+    for opname, sym in (('__add__', '+'), ('__sub__', '-')):
+        reg.add(Contract(EVF, 'EngVal.' + opname, {'self': EV, 'other': EV}, returns=EV, globals_=G_EV, raises=REFUSE2,
+                         ensures=['result.uom == self.uom', 'implies(other.uom == self.uom, result.value == self.value %s other.value)' % sym],
+                         canaries=['result.value == self.value'], crosscheck=False))
+    for opname, sym in (('__iadd__', '+'), ('__isub__', '-')):
+        reg.add(Contract(EVF, 'EngVal.' + opname, {'self': EV, 'other': EV}, returns=EV, globals_=G_EV, raises=REFUSE2, modifies=['self.value'],
+                         ensures=['self.uom == old(self.uom)', 'implies(other.uom == self.uom, self.value == old(self.value) %s other.value)' % sym,
+                                  'result.value == self.value and result.uom == self.uom'],
+                         canaries=['self.value == old(self.value)'], crosscheck=False))
+    for opname, sym in (('__lt__', '<'), ('__le__', '<='), ('__gt__', '>'), ('__ge__', '>='), ('__eq__', '=='), ('__ne__', '!=')):
+        reg.add(Contract(EVF, 'EngVal.' + opname, {'self': EV, 'other': EV}, returns=Bool, globals_=G_EV, raises=REFUSE2,
+                         ensures=['implies(other.uom == self.uom, result == (self.value %s other.value))' % sym],
+                         canaries=['result', 'not result'], crosscheck=False))
     reg.add(Contract(EVF, 'EngVal.convert', {'self': EV, 'theUnits': Int}, globals_=G_EV, raises=REFUSE, modifies=['self.value', 'self.uom'],
                      ensures=['self.uom == theUnits', 'implies(theUnits == old(self.uom), self.value == old(self.value))'],
                      canaries=['self.value == old(self.value)'], crosscheck=False))
